@@ -14,6 +14,7 @@ SPEC = {
             "tkn20 matrixG1/matrixG2 (white-box), goldilocks.FromBytes / Point.UnmarshalBinary (57), fourq.Point.Unmarshal and curve4q.Shared (32), "
             "Ed25519 public keys (white-box pointR1.FromBytes incl. all 38 encodings with y>=p; black-box Verify with forged signatures under low-order keys), "
             "group.P256/P384/P521 and ristretto255 elements, OPRF public keys of the four suites, ML-KEM-512/768/1024 + X25519MLKEM768 + X-Wing encapsulation keys. "
+            "Every decoder that has a receiver is additionally run, for every generated input, into a USED receiver (holding the generator / identity / an unnormalised sum / k*G / another key or matrix / the remains of a rejected decode / the same input, chosen by a hash of the input): same verdict as a fresh receiver, and for accepted inputs identical serialisations, IsIdentity, membership, equality with the fresh value and identical results of one doubling/addition. "
             "non-trivial = the input is not an unmodified library encoding; distinct by FNV-64 of (sub-check, input bytes[, key seed, message])",
     "assumptions": COMMON_ASSUME + [
         "the reference decoders in zz_verif/ref/decode (math/big only, written from the ZCash serialisation notes, RFC 8032, RFC 9496, SEC 1, FIPS 203 and the FourQ paper) are correct; "
